@@ -101,6 +101,8 @@ func c11(tier string) []*explore.Scenario {
 	}
 	out = append(out, withHistory(historyKinds(tier), c11One(abandon{"handler-returns", 2, 0, false, false, false}, 64, 1, 1), c11One(abandon{"caller-cancels", 3, 1, false, false, false}, 0, 1, 1),
 		c11One(abandon{"caller-cancels", 8, 0, false, false, true}, 64, 1, 0))...)
+	out = append(out, withConfig(configKinds(tier), c11One(abandon{"handler-returns", 2, 0, false, false, false}, 64, 1, 1), c11One(abandon{"caller-cancels", 3, 1, false, false, false}, 0, 1, 1),
+		c11One(abandon{"caller-cancels", 8, 0, false, false, true}, 64, 1, 0))...)
 	// the reset that follows a cancellation is taken by the transport only after the unread
 	// responses have all arrived
 	for _, nk := range [][2]int{{2, 0}, {3, 1}, {5, 0}, {6, 1}, {8, 0}, {8, 1}, {8, 4}} {
